@@ -1,8 +1,80 @@
-/- line-protocol handlers for C16 (stub: not built yet) -/
+/- line-protocol handlers for C16 (Gell-Mann coordinates).
+Numbers cross the protocol as exact Gaussian rationals `re,im` with `re`, `im` either an integer or `p/q`;
+lists are `;`-separated.  The square-root scalars are the binary64 values taken exactly
+(`Numqi.Gellmann.floatScalars`), all other arithmetic is exact. -/
 import Driver.Loop
+import NumqiModel.Gellmann
 
 namespace Numqi.Driver.C16
+open Numqi Numqi.Gellmann
 
-def handle (_args : List String) : String := "bad-op"
+def parseRat? (s : String) : Option Rat :=
+  match s.splitOn "/" with
+  | [a] => do let x ← a.toInt?; pure (x : Rat)
+  | [a, b] => do
+      let x ← a.toInt?
+      let y ← b.toNat?
+      if y = 0 then none else pure ((x : Rat) / ((y : Int) : Rat))
+  | _ => none
+
+def parseQI? (s : String) : Option QI :=
+  match s.splitOn "," with
+  | [a, b] => do let x ← parseRat? a; let y ← parseRat? b; pure ⟨x, y⟩
+  | [a] => do let x ← parseRat? a; pure ⟨x, 0⟩
+  | _ => none
+
+def parseQIList? (s : String) : Option (List QI) :=
+  if s = "" || s = "-" then some [] else (s.splitOn ";").mapM parseQI?
+
+def qiListStr (l : List QI) : String := ";".intercalate (l.map QI.toStr)
+
+def matOfList (d : Nat) (l : List QI) : Mat d QI := fun r c => l.getD (r.val * d + c.val) 0
+def matToList {d : Nat} (M : Mat d QI) : List QI :=
+  (List.finRange d).flatMap fun r => (List.finRange d).map fun c => M r c
+
+def handle (args : List String) : String :=
+  match args with
+  | ["gm", d, i, j] => Id.run do
+      let some d := d.toNat? | return "bad-op"
+      let some i := i.toNat? | return "bad-op"
+      let some j := j.toNat? | return "bad-op"
+      if !(d > 0 && i < d && j < d) then return "error:assert"
+      return qiListStr (matToList (gm (floatScalars d) d i j))
+  | ["all", d] => Id.run do
+      let some d := d.toNat? | return "bad-op"
+      if d < 2 then return "error:assert"
+      return "|".intercalate ((allGellmann (floatScalars d) d).map fun M => qiListStr (matToList M))
+  | ["ana", d, a] => Id.run do
+      let some d := d.toNat? | return "bad-op"
+      let some a := parseQIList? a | return "bad-op"
+      if d = 0 || a.length ≠ d * d then return "bad-op"
+      return qiListStr (analysis (floatScalars d) d (matOfList d a))
+  | ["syn", d, v] => Id.run do
+      let some d := d.toNat? | return "bad-op"
+      let some v := parseQIList? v | return "bad-op"
+      if d = 0 || v.length ≠ d * d then return "bad-op"
+      return qiListStr (matToList (synthesis (floatScalars d) d fun p => v.getD p 0))
+  | ["dm2vec", d, w, a] => Id.run do
+      let some d := d.toNat? | return "bad-op"
+      let some a := parseQIList? a | return "bad-op"
+      if d = 0 || a.length ≠ d * d || (w ≠ "0" && w ≠ "1") then return "bad-op"
+      return qiListStr (dmToVec (floatScalars d) d (matOfList d a) (w = "1"))
+  | ["vec2dm", d, v] => Id.run do
+      let some d := d.toNat? | return "bad-op"
+      let some v := parseQIList? v | return "bad-op"
+      if d < 2 || v.length ≠ d * d - 1 then return "bad-op"
+      return qiListStr (matToList (vecToDm (floatScalars d) d fun p => v.getD p 0))
+  | ["norm2", d, a] => Id.run do
+      let some d := d.toNat? | return "bad-op"
+      let some a := parseQIList? a | return "bad-op"
+      if d = 0 || a.length ≠ d * d then return "bad-op"
+      return QI.toStr (dmNorm2 (floatScalars d) d (matOfList d a))
+  | ["dist2", d, a, b] => Id.run do
+      let some d := d.toNat? | return "bad-op"
+      let some a := parseQIList? a | return "bad-op"
+      let some b := parseQIList? b | return "bad-op"
+      if d = 0 || a.length ≠ d * d || b.length ≠ d * d then return "bad-op"
+      return QI.toStr (distance2 (floatScalars d) d (matOfList d a) (matOfList d b))
+  | _ => "bad-op"
 
 end Numqi.Driver.C16
